@@ -33,10 +33,10 @@ func RaftNode.applyAdd
   requires len(hashes) > 0 && state != nil && n.state != nil
   requires n.balloon != nil && n.balloon.historyTree != nil && n.balloon.hyperTree != nil && !isnil(n.db) && !isnil(n.log) && n.metrics != nil
   may_panic
-  modifies everything, mutateCalls, lastMutations, lastMetadata
+  modifies everything, mutateCalls, lastMutations, lastMetadata, lastWriteCarriesState
   ensures C07/exactly-one-write: mutateCalls == old(mutateCalls) + 1
   ensures C07/state-after-write: n.state == state
-  ensures C07/state-in-the-same-batch: len(lastMutations) >= 1 && lastMutations[len(lastMutations) - 1] != nil && lastMutations[len(lastMutations) - 1].Table == storage.FSMStateTable
+  ensures C07/state-in-the-same-batch: lastWriteCarriesState
   ensures C05/balloon-advanced: n.balloon.version == old(n.balloon.version) + uint64(len(hashes))
   ensures result != nil
 
@@ -48,9 +48,9 @@ func RaftNode.Apply
   requires l != nil && len(l.Data) >= 1 && n.state != nil
   requires n.balloon != nil && n.balloon.historyTree != nil && n.balloon.hyperTree != nil && !isnil(n.db) && !isnil(n.log) && n.metrics != nil
   may_panic
-  modifies everything, mutateCalls, lastMutations, lastMetadata
+  modifies everything, mutateCalls, lastMutations, lastMetadata, lastWriteCarriesState
   ensures C07/at-most-one-write: mutateCalls == old(mutateCalls) || mutateCalls == old(mutateCalls) + 1
-  ensures C07/replayed-entry-writes-nothing: old(n.state.Index) != 0 && l.Index <= old(n.state.Index) ==> mutateCalls == old(mutateCalls)
+  ensures C07/replayed-entry-writes-nothing: old(n.state.Index) != 0 && old(l.Index) <= old(n.state.Index) ==> mutateCalls == old(mutateCalls)
 
 // ---- C11: what the API layer can make the node propose ----------------------------------
 
@@ -113,8 +113,11 @@ func command.encode
   ensures isnil(result) ==> len(c.data) >= 1
 
 func encodeMsgPack
+// (ghost bookkeeping: whether the last decode succeeded and, for version metadata, what it read)
 func decodeMsgPack
-  modifies *dyn(out)
+  modifies *dyn(out), lastDecodeOK, lastMetaPrev, lastMetaNew
+  assumes lastDecodeOK == isnil(result)
+  assumes isnil(result) && istype(out, *VersionMetadata) && dyn(out, *VersionMetadata) != nil ==> lastMetaPrev == dyn(out, *VersionMetadata).PreviousVersion && lastMetaNew == dyn(out, *VersionMetadata).NewVersion
 func fsmState.encode
 func VersionMetadata.encode
 
@@ -214,4 +217,42 @@ func RaftNode.ListBackups
   props C16
   requires !isnil(n.db) && !isnil(n.log)
   modifies everything
+
+// ---- C09: state transfer ----------------------------------------------------------------
+// Leader side: the filter that decides, batch by batch in write-ahead-log order, what is
+// shipped. L is the version the follower has (then: the version the shipped batches reach).
+
+func RaftNode.FetchSnapshot.$1.$1
+  props C09
+  // a batch that starts beyond L would leave a gap: the transfer is aborted with an error
+  ensures C09/gap-refused: lastDecodeOK && lastMetaPrev > old(lastSnapshotAppliedVersion) ==> !result_0 && !isnil(result_1)
+  // what is shipped continues the sequence and moves L to where the batch ends
+  ensures C09/ships-only-the-continuation: result_0 ==> lastDecodeOK && lastMetaPrev <= old(lastSnapshotAppliedVersion) && lastSnapshotAppliedVersion == lastMetaNew && (lastMetaNew > old(lastSnapshotAppliedVersion) || old(lastSnapshotAppliedVersion) == 0)
+  // a batch that continues the sequence is never skipped
+  ensures C09/continuation-is-shipped: lastDecodeOK && lastMetaPrev <= old(lastSnapshotAppliedVersion) && lastMetaNew > old(lastSnapshotAppliedVersion) ==> result_0 && isnil(result_1)
+  // what is not shipped does not move L
+  ensures C09/refusal-keeps-position: !result_0 ==> lastSnapshotAppliedVersion == old(lastSnapshotAppliedVersion)
+
+// Follower side: once the batches are replayed into the store, everything the node keeps
+// in memory is derived again from the store: fsm state, balloon version, hyper cache.
+// ASSUMED bookkeeping: loadState reads the state from the store as it is now
+func RaftNode.loadState
+  props C09
+  requires !isnil(n.db) && !isnil(n.log)
+  modifies everything, stateSeenLoads
+  ensures isnil(result) ==> n.state != nil
+  ensures old(n.state) != nil ==> n.state != nil
+  assumes stateSeenLoads == snapshotLoads
+// ASSUMED (not verified: gRPC plumbing): opening the stream leaves the node's fsm state alone
+func RaftNode.attemptToFetchSnapshot
+  modifies everything
+  preserves n.state
+
+func RaftNode.Restore
+  props C09
+  requires n.state != nil && n.balloon != nil && n.balloon.hyperTree != nil && !isnil(n.balloon.store) && !isnil(n.db) && !isnil(n.log) && !isnil(rc)
+  modifies everything, snapshotLoads, rebuildSeenLoads, versionSeenLoads, stateSeenLoads
+  ensures C09/at-most-one-transfer: snapshotLoads == old(snapshotLoads) || snapshotLoads == old(snapshotLoads) + 1
+  ensures C09/hyper-cache-rebuilt-after-transfer: isnil(result) && snapshotLoads != old(snapshotLoads) ==> rebuildSeenLoads == snapshotLoads
+  ensures C09/version-and-state-reloaded-after-transfer: isnil(result) ==> versionSeenLoads == snapshotLoads && stateSeenLoads == snapshotLoads
 @*/
